@@ -37,7 +37,7 @@ pub open spec fn slice_views(v: Seq<&[u8]>) -> Seq<Seq<u8>> { v.map(|i: int, x: 
 
 // ---------- route: spec layer ----------
 pub open spec fn route_link_wf(c: &SrtlaConnection) -> bool {
-    c.wf_count() && c.batch_sender.wf() && c.stall_probe_counter < 100 && 0 <= c.window && c.latch_wf()
+    c.wf_count() && c.batch_sender.wf() && c.stall_probe_counter < 100 && 0 <= c.window && c.latch_wf() && q_ok(c.quality_cache.multiplier)
 }
 // machine arithmetic (assumption, not inductive): packet log + queue stay far below i32::MAX entries
 pub open spec fn size_ok(c: &SrtlaConnection) -> bool { c.packet_log@.len() + c.batch_sender.queue.len() < 0x7ffe_0000 }
@@ -46,6 +46,13 @@ pub open spec fn send_link_wf(c: &SrtlaConnection) -> bool { route_link_wf(c) &&
 // machine arithmetic: the two lifetime event counters stay below 2^63 (assumption, not inductive)
 pub open spec fn counters_ok(conns: Seq<SrtlaConnection>) -> bool {
     forall|i: int| 0 <= i < conns.len() ==> (#[trigger] conns[i]).stall_gate_events < 0x7fff_ffff_ffff_ffff && conns[i].silence_pulls < 0x7fff_ffff_ffff_ffff
+}
+pub proof fn lemma_route_wf_gives_select_pre(conns: Seq<SrtlaConnection>)
+    requires route_wf(conns), counters_ok(conns),
+    ensures gate_pre_ok(conns), forall|i: int| 0 <= i < conns.len() ==> 0 <= (#[trigger] conns[i]).window && conns[i].batch_sender.wf() && q_ok(conns[i].quality_cache.multiplier),
+{
+    assert forall|i: int| 0 <= i < conns.len() implies (#[trigger] conns[i]).stall_gate_events < 0x7fff_ffff_ffff_ffff && conns[i].silence_pulls < 0x7fff_ffff_ffff_ffff && conns[i].latch_wf() by { assert(route_link_wf(&conns[i])); }
+    assert forall|i: int| 0 <= i < conns.len() implies 0 <= (#[trigger] conns[i]).window && conns[i].batch_sender.wf() && q_ok(conns[i].quality_cache.multiplier) by { assert(route_link_wf(&conns[i])); }
 }
 pub open spec fn route_wf(conns: Seq<SrtlaConnection>) -> bool { forall|i: int| 0 <= i < conns.len() ==> route_link_wf(&#[trigger] conns[i]) }
 
@@ -215,10 +222,12 @@ pub fn flush_has_work(connections: &[SrtlaConnection], now: u64) -> (r: bool)
                ensures=['final(connections).len() == old(connections).len()', 'route_wf(final(connections)@)',
                         C('C09.route.handle_srt_packet.client_address_learned_from_the_datagram', 'res is Ok && res->Ok_0.0 > 0 ==> *final(last_client_addr) == Some(res->Ok_0.1)')],
                splices=[
+                   ('let mut sel_idx =\n                select_connection_idx(', 'proof { lemma_route_wf_gives_select_pre(connections@); }\n            let mut sel_idx =\n                select_connection_idx(', 'replace'),
                    ('select_connection_idx(connections, *last_selected_idx, packet_time_ms, config_snap);', '''let ghost sched = connections@; let ghost sched_choice = sel_idx;
             proof {
                 assert forall|i: int| 0 <= i < connections.len() implies route_link_wf(&#[trigger] connections[i]) && size_ok(&connections[i]) by {
                     assert(old(connections)[i].same_acct(&connections[i])); assert(route_link_wf(&old(connections)[i])); assert(size_ok(&old(connections)[i]));
+                    assert(connections[i].latch_wf() && q_ok(connections[i].quality_cache.multiplier));
                 }
             }''', 'after'),
                    ('if let Some(sel_idx) = sel_idx {\n                forward_via_connection(\n                    sel_idx,\n                    pkt,\n                    seq,\n                    connections,\n                    conn_io,\n                    last_selected_idx,\n                    seq_tracker,\n                    packet_time_ms,\n                );\n                if seq.is_some() {',
